@@ -808,3 +808,188 @@ Proof.
   rewrite Hidx. replace (next_idx pr - 1 + 1) with (next_idx pr) by lia.
   split; [exact Hc|]. apply Hw. exact Hnx.
 Qed.
+
+(* ================================================================== *)
+(* 6. Heartbeats                                                        *)
+(* ================================================================== *)
+
+Definition hb_msg (r : raft) (to : N) (pr : progress) (ctx : option (list N)) : msg :=
+  let m := msg_default <| m_to := to |> <| m_type := MsgHeartbeat |>
+             <| m_commit := N.min (matched pr) (committed (r_log r)) |> in
+  match ctx with Some c => m <| m_context := c |> | None => m end.
+
+Lemma send_heartbeat_exact r to pr ctx :
+  send_heartbeat r to pr ctx = Ok (r <| r_msgs := r_msgs r ++ [stamped r (hb_msg r to pr ctx)] |>).
+Proof. unfold send_heartbeat. destruct ctx; rewrite send_plain by reflexivity; reflexivity. Qed.
+
+(* Theorem 5: send_heartbeat never panics and queues exactly one MsgHeartbeat
+   whose commit is min(matched, committed) *)
+Theorem heartbeat_commit r to pr ctx :
+  exists m, send_heartbeat r to pr ctx = Ok (r <| r_msgs := r_msgs r ++ [m] |>) /\
+    m_type m = MsgHeartbeat /\ m_to m = to /\ m_from m = r_id r /\ m_term m = r_term r /\
+    m_commit m = N.min (matched pr) (committed (r_log r)) /\
+    m_commit m <= matched pr /\ m_commit m <= committed (r_log r) /\
+    m_context m = (match ctx with Some c => c | None => [] end) /\
+    m_entries m = [] /\ m_index m = 0 /\ m_log_term m = 0.
+Proof.
+  exists (stamped r (hb_msg r to pr ctx)). split; [apply send_heartbeat_exact|].
+  destruct ctx; cbn; repeat split; lia.
+Qed.
+
+(* bcast_heartbeat: one such heartbeat per peer, nothing else changes *)
+Definition is_heartbeat_of (r : raft) (ctx : option (list N)) (m : msg) : Prop :=
+  exists pr, get_pr r (m_to m) = Some pr /\ m_to m <> r_id r /\
+             m = stamped r (hb_msg r (m_to m) pr ctx).
+
+Lemma hb_loop r ctx ids acc r' :
+  for_each_peer ids (r_id r)
+    (fun r0 id => match get_pr r0 id with
+                  | Some pr => send_heartbeat r0 id pr ctx
+                  | None => Panic site_pr_unwrap
+                  end) (r <| r_msgs := r_msgs r ++ acc |>) = Ok r' ->
+  exists new, r' = r <| r_msgs := r_msgs r ++ acc ++ new |> /\ Forall (is_heartbeat_of r ctx) new.
+Proof.
+  revert acc. induction ids as [|id rest IH]; intros acc H; cbn [for_each_peer] in H.
+  - inversion H; subst. exists []. rewrite app_nil_r. split; [reflexivity|constructor].
+  - change (r_id (r <| r_msgs := r_msgs r ++ acc |>)) with (r_id r) in H.
+    destruct (id =? r_id r) eqn:Eid; [apply IH; exact H|].
+    inv_bind H.
+    change (get_pr (r <| r_msgs := r_msgs r ++ acc |>) id) with (get_pr r id) in Hx.
+    destruct (get_pr r id) as [pr|] eqn:Epr; [|discriminate].
+    rewrite send_heartbeat_exact in Hx. inversion Hx; subst x. clear Hx.
+    cbn in H. rewrite <- app_assoc in H.
+    change (stamped (r <| r_msgs := r_msgs r ++ acc |>) (hb_msg (r <| r_msgs := r_msgs r ++ acc |>) id pr ctx))
+      with (stamped r (hb_msg r id pr ctx)) in H.
+    destruct (IH (acc ++ [stamped r (hb_msg r id pr ctx)])) as (new & E & F).
+    { rewrite <- H. reflexivity. }
+    exists (stamped r (hb_msg r id pr ctx) :: new). split.
+    + rewrite E. rewrite <- app_assoc. reflexivity.
+    + constructor; [|exact F]. exists pr.
+      assert (Hto : m_to (stamped r (hb_msg r id pr ctx)) = id) by (destruct ctx; reflexivity).
+      rewrite Hto. split; [exact Epr|]. split; [apply N.eqb_neq; exact Eid|reflexivity].
+Qed.
+
+Theorem bcast_heartbeat_with_ctx_spec r ctx r' :
+  bcast_heartbeat_with_ctx r ctx = Ok r' ->
+  exists new, r' = r <| r_msgs := r_msgs r ++ new |> /\ Forall (is_heartbeat_of r ctx) new.
+Proof.
+  unfold bcast_heartbeat_with_ctx. intros H.
+  destruct (hb_loop r ctx (pids (t_progress (r_prs r))) [] r') as (new & E & F).
+  { rewrite <- H. f_equal. rewrite app_nil_r. destruct r; reflexivity. }
+  exists new. split; [exact E|exact F].
+Qed.
+
+Lemma is_heartbeat_of_commit r ctx m :
+  is_heartbeat_of r ctx m ->
+  m_type m = MsgHeartbeat /\ m_commit m <= committed (r_log r) /\
+  exists pr, get_pr r (m_to m) = Some pr /\ m_commit m = N.min (matched pr) (committed (r_log r))
+             /\ m_commit m <= matched pr.
+Proof.
+  intros (pr & Hg & _ & E). rewrite E at 1 2. 
+  assert (Hc : m_commit m = N.min (matched pr) (committed (r_log r))) by (rewrite E; destruct ctx; reflexivity).
+  split; [destruct ctx; reflexivity|]. split; [destruct ctx; cbn; lia|].
+  exists pr. split; [exact Hg|]. split; [exact Hc|]. rewrite Hc. lia.
+Qed.
+
+(* ================================================================== *)
+(* 7. Uncommitted-size accounting                                       *)
+(* ================================================================== *)
+
+(* Theorem 6a: the refusal condition, exactly *)
+Theorem uncommitted_refused_iff r ents :
+  snd (maybe_increase_uncommitted_size r ents) = false <->
+  (r_max_uncommitted_size r <> NO_LIMIT /\ data_size ents <> 0 /\ r_uncommitted_size r <> 0 /\
+   r_max_uncommitted_size r < data_size ents + r_uncommitted_size r).
+Proof.
+  unfold maybe_increase_uncommitted_size, NO_LIMIT.
+  destruct (r_max_uncommitted_size r =? u64_max) eqn:E1; cbn [snd].
+  - split; [discriminate|]. intros (H & _). lia.
+  - destruct (data_size ents =? 0) eqn:E2; cbn [orb snd]; [split; [discriminate|lia]|].
+    destruct (r_uncommitted_size r =? 0) eqn:E3; cbn [orb snd]; [split; [discriminate|lia]|].
+    destruct (data_size ents + r_uncommitted_size r <=? r_max_uncommitted_size r) eqn:E4;
+      cbn [snd]; [split; [discriminate|lia]|].
+    split; [intros _; lia|reflexivity].
+Qed.
+
+(* Theorem 6b: the effect *)
+Theorem uncommitted_effect r ents r' ok :
+  maybe_increase_uncommitted_size r ents = (r', ok) ->
+  (ok = false -> r' = r) /\
+  (ok = true ->
+     (r_max_uncommitted_size r = NO_LIMIT /\ r' = r) \/
+     (r_max_uncommitted_size r <> NO_LIMIT /\
+      r' = r <| r_uncommitted_size := r_uncommitted_size r + data_size ents |>)).
+Proof.
+  unfold maybe_increase_uncommitted_size, NO_LIMIT.
+  destruct (r_max_uncommitted_size r =? u64_max) eqn:E1.
+  - intros H; inversion H; subst. split; [discriminate|]. intros _. left. split; [lia|reflexivity].
+  - match goal with |- (if ?c then _ else _) = _ -> _ => destruct c end;
+      intros H; inversion H; subst.
+    + split; [discriminate|]. intros _. right. split; [lia|reflexivity].
+    + split; [reflexivity|discriminate].
+Qed.
+
+(* Theorem 6c: consequences.  Empty payloads are never refused; one proposal
+   is always admitted when nothing is outstanding; otherwise an admitted
+   proposal keeps the total within max_uncommitted_size. *)
+Theorem uncommitted_bound r ents r' ok :
+  maybe_increase_uncommitted_size r ents = (r', ok) ->
+  (data_size ents = 0 -> ok = true /\ r_uncommitted_size r' = r_uncommitted_size r) /\
+  (r_uncommitted_size r = 0 -> ok = true) /\
+  (ok = true -> r_max_uncommitted_size r <> NO_LIMIT ->
+     r_uncommitted_size r' = r_uncommitted_size r + data_size ents /\
+     (data_size ents = 0 \/ r_uncommitted_size r = 0 \/
+      r_uncommitted_size r' <= r_max_uncommitted_size r)) /\
+  (ok = false -> r' = r) /\
+  r_max_uncommitted_size r' = r_max_uncommitted_size r.
+Proof.
+  intros H.
+  pose proof (uncommitted_refused_iff r ents) as Hiff. rewrite H in Hiff. cbn [snd] in Hiff.
+  destruct (uncommitted_effect _ _ _ _ H) as (Hf & Ht).
+  split; [|split; [|split; [|split]]].
+  - intros Hz. assert (ok = true) as -> by (destruct ok; [reflexivity|]; destruct Hiff as [A _]; specialize (A eq_refl); lia).
+    split; [reflexivity|]. destruct (Ht eq_refl) as [(_ & ->)|(_ & ->)]; [reflexivity|]. cbn. lia.
+  - intros Hz. destruct ok; [reflexivity|]. destruct Hiff as [A _]. specialize (A eq_refl). lia.
+  - intros -> Hlim. destruct (Ht eq_refl) as [(A & _)|(_ & ->)]; [congruence|]. cbn.
+    split; [reflexivity|].
+    destruct (N.eq_dec (data_size ents) 0) as [|Hd]; [left; assumption|].
+    destruct (N.eq_dec (r_uncommitted_size r) 0) as [|Hu]; [right; left; assumption|].
+    right; right.
+    destruct (N.le_gt_cases (r_uncommitted_size r + data_size ents) (r_max_uncommitted_size r)) as [L|G];
+      [exact L|].
+    destruct Hiff as [_ B]. assert (true = false) by (apply B; repeat split; try assumption; lia).
+    discriminate.
+  - exact Hf.
+  - destruct ok; [destruct (Ht eq_refl) as [(_ & ->)|(_ & ->)]; reflexivity|rewrite (Hf eq_refl); reflexivity].
+Qed.
+
+(* Theorem 6d: releasing.  Only a leader's counter is touched, it never
+   underflows (saturates at 0), never grows, and nothing else changes. *)
+Theorem reduce_uncommitted_spec r ents :
+  let r' := reduce_uncommitted_size r ents in
+  (is_leader r = false -> r' = r) /\
+  (r_max_uncommitted_size r = NO_LIMIT -> r' = r) /\
+  (ents = [] -> r' = r) /\
+  (r' = r \/
+   r' = r <| r_uncommitted_size :=
+             r_uncommitted_size r - data_size (skip_le_tail ents (r_last_log_tail_index r)) |>) /\
+  r_uncommitted_size r' <= r_uncommitted_size r /\
+  (is_leader r = true -> r_max_uncommitted_size r <> NO_LIMIT -> ents <> [] ->
+   r_uncommitted_size r' =
+     r_uncommitted_size r - data_size (skip_le_tail ents (r_last_log_tail_index r))).
+Proof.
+  cbv zeta. unfold reduce_uncommitted_size, NO_LIMIT.
+  destruct (is_leader r) eqn:El; cbn [negb].
+  2:{ repeat split; auto; try lia; intros; try discriminate. }
+  destruct (r_max_uncommitted_size r =? u64_max) eqn:Em; cbn [orb].
+  { repeat split; auto; try lia; intros; try lia. }
+  destruct ents as [|e0 et].
+  { repeat split; auto; try lia; intros; try congruence. }
+  set (sz := data_size (skip_le_tail (e0 :: et) (r_last_log_tail_index r))). clearbody sz.
+  destruct (r_uncommitted_size r <? sz) eqn:Elt.
+  - split; [discriminate|]. split; [lia|]. split; [discriminate|].
+    split; [right; replace (r_uncommitted_size r - sz) with 0 by lia; reflexivity|].
+    cbn. split; [lia|]. intros _ _ _. lia.
+  - split; [discriminate|]. split; [lia|]. split; [discriminate|].
+    split; [right; reflexivity|]. cbn. split; [lia|]. intros _ _ _. reflexivity.
+Qed.
